@@ -23,9 +23,14 @@ CEX = {
 def model_cfgs(ctx):
     if ctx.tier == "quick":
         return [("plain", dict(MaxCalls=3, Ops={"START_ACTIVITY", "STOP_ACTIVITY", "RESET"})),
-                ("reuse", dict(ReuseUnlocked=True, MaxCalls=4, DetChoices=[set()], Ops={"START_ACTIVITY"}, DestroyFlags=[{"keep"}]))]
+                ("reuse", dict(ReuseUnlocked=True, MaxCalls=4, DetChoices=[set()], Ops={"START_ACTIVITY"}, DestroyFlags=[{"keep"}])),
+                # executor / agent reported lost for owned tasks, cleanups and kills for the other environment
+                ("lost", dict(Ops=set(), DestroyFlags=[set()], FaultRoles={"a"}, FaultKinds={"EXECUTOR_LOST", "AGENT_LOST"}, MaxCalls=4,
+                              MaxInFlight=1))]
     return [("plain", dict(MaxCalls=4)),
             ("two-tasks", dict(BasicChoices=[{"a", "b"}], MaxCalls=3, DestroyFlags=[set(), {"keep"}])),
+            ("lost", dict(Ops={"START_ACTIVITY"}, DestroyFlags=[set(), {"force"}], FaultRoles={"a"}, FaultKinds={"EXECUTOR_LOST", "AGENT_LOST"},
+                          MaxCalls=3)),
             ("reuse", dict(Envs={"e1", "e2", "e3"}, ReuseUnlocked=True, MaxCalls=4, MaxInFlight=3, DetChoices=[set()],
                            Ops={"START_ACTIVITY"}, DestroyFlags=[{"keep"}]))]
 
@@ -81,7 +86,7 @@ def run(ctx):
         scenarios.append(lc.recipe_double_claim(sid[0]))
         expected[sid[0]] = ("Code_ClaimNotAtomic", "LockUnowned")
     # 3. scenarios walked by TLC
-    nseq, npar, nreuse = (40, 60, 16) if quick else (250, 450, 100)
+    nseq, npar, nreuse, nros, novt = (30, 40, 12, 25, 20) if quick else (250, 400, 100, 200, 150)
     common = dict(Envs={"e1", "e2", "e3"}, TaskIds={"k%d" % i for i in range(1, 17)}, BasicChoices=[{"a"}, {"a", "b"}],
                   DetChoices=[{"TPC"}, {"ITS"}, {"TPC", "ITS"}], Ops=OPS, DestroyFlags=[set(), {"force"}, {"keep"}, {"allow"}],
                   MaxCalls=6, MaxInFlight=2)
@@ -90,6 +95,19 @@ def run(ctx):
         add(h, "seq")
     for h in lc.generate(ctx, dict(common, MaxCalls=5), npar, pairs=True, max_pairs=2):
         add(h, "par")
+    # what blanks the ids of an owned task (executor / agent reported lost; status updates generated by the master, without
+    # executor id) followed by cleanups, creates and destroys of the other environments: kills and roster removals for one
+    # environment (or for nobody) leave the tasks the others own alone
+    ros = dict(common, FaultRoles={"a", "b"}, FaultKinds={"EXECUTOR_LOST", "AGENT_LOST", "MASTER_NOEXEC", "MASTER_NOIDS"}, Ops=set(),
+               DestroyFlags=[set(), {"force"}], MaxCalls=5, MaxInFlight=1)
+    for h in lc.generate(ctx, ros, nros * 2, pairs=False):
+        if any(it["do"] == "fault" for it in h) and nros > 0:
+            add(h, "roster")
+            nros -= 1
+    # a destroy parked after it released its tasks, overtaken by a create / cleanup that takes them away
+    ovt = dict(common, Ops=set(), DestroyFlags=[set(), {"force"}], MaxCalls=5)
+    for h in lc.generate(ctx, ovt, novt, pairs=True, gates=["td.released1", "td.released2", "td.done"], max_pairs=1):
+        add(h, "overtake")
     rc = dict(common, ReuseUnlocked=True, DetChoices=[set(), {"TPC"}], MaxCalls=5)
     for h in lc.generate(ctx, rc, nreuse, pairs=True, max_pairs=1):
         add(h, "reuse", reuse=True)
